@@ -13,8 +13,9 @@ def describe(c):
     a = c["args"]
     if c["kind"] == 12:
         irset = a[0]; a = ["irset %s onoff=%s %d waves" % (irset["IRSetID"], irset["OnOffType"], len(irset["IRWaveList"]))] + a[1:]
-    return "%s%r id=%s key=%s now=%d replies=%s" % (world.KIND_NAMES[c["kind"]], tuple(a), c["id"], c["key"], c["now"],
-                                                     [r[:24] + (".." if len(r) > 24 else "") for r in c["replies"]])
+    return "%s%r id=%s key=%s now=%d replies=%s%s" % (world.KIND_NAMES[c["kind"]], tuple(a), c["id"], c["key"], c["now"],
+                                                       [r[:24] + (".." if len(r) > 24 else "") for r in c["replies"]],
+                                                       " reply delays (s)=%s" % c["delays"] if c.get("delays") else "")
 
 
 def has_session(c):
